@@ -435,7 +435,7 @@ def configs(tier, pid):
         comps = ["c1", "c2", "cp"] if th else ["c1", "c2"]
         out += [
             Config("R.any2", "resources", [[(G, "any", 2)]], reqs=[(G, "any"), (G, "1")],
-                   multis=[[(G, "any", 1)], [(G, "any", 1), (G, "1", 1)], [(G, "any", 2), (G, "1", 1)]], comps=comps, depth=(4, 6), all_q=th),
+                   multis=[[(G, "any", 1)], [(G, "any", 1), (G, "1", 1)], [(G, "any", 2), (G, "1", 1)]], comps=comps, depth=(4, 6)),
             Config("R.g1g2", "resources", [[(G, "1", 1), (G, "2", 1)]], reqs=[(G, "any"), (G, "1"), (G, "2")],
                    multis=[[(G, "any", 1), (G, "1", 1)], [(G, "1", 1), (G, "2", 1)], [(G, "any", 2)]], comps=comps, depth=(5, 6)),
             Config("R.cany2_g1", "resources", [[(C, "any", 2), (G, "1", 1)]], reqs=[(C, "any"), (G, "any"), (G, "2")],
@@ -463,21 +463,21 @@ def configs(tier, pid):
         Config("W.cany2_g1", "worker", [[(C, "any", 2), (G, "1", 1)]],
                strategies=[("sA", [(C, "any", 1)], False), ("sB", [(C, "any", 1), (G, "any", 1)], False),
                            ("sO", [(G, "any", 1), (G, "1", 1)], False), ("bA", [(C, "any", 1), (G, "1", 1)], True)],
-               loads=[("lA", [(G, "any", 1)], 1), ("lB", [(C, "any", 1)], 3)], ntasks=nt, profiles=["p1"], depth=(5, 6)),
+               loads=[("lA", [(G, "any", 1)], 1), ("lB", [(C, "any", 1)], 3)], ntasks=nt, profiles=["p1"], depth=(5, 7)),
         Config("P.g1+g1", "pool", [[(G, "1", 1)], [(G, "1", 1)]],
                strategies=[("sA", [(G, "any", 1)], False), ("bA", [(G, "any", 1)], True)],
-               loads=[("lA", [(G, "any", 1)], 2)], ntasks=nt, profiles=["p1"], depth=(4, 6)),
+               loads=[("lA", [(G, "any", 1)], 2)], ntasks=nt, profiles=["p1"], depth=(4, 7)),
         Config("P.g1g2+c1g1", "pool", [[(G, "1", 1), (G, "2", 1)], [(C, "any", 1), (G, "1", 1)]],
                strategies=[("sA", [(G, "any", 1)], False), ("sB", [(G, "any", 2)], False), ("sO", [(G, "any", 1), (G, "1", 1)], False),
                            ("bA", [(G, "any", 1), (C, "any", 1)], True)],
-               loads=[("lA", [(G, "any", 1)], 2)], ntasks=nt, profiles=["p1"], depth=(4, 5)),
+               loads=[("lA", [(G, "any", 1)], 2)], ntasks=nt, profiles=["p1"], depth=(4, 6)),
     ]
     if th:
         out += [
             Config("W.gany2", "worker", [[(G, "any", 2)]],
                    strategies=[("sA", [(G, "any", 1)], False), ("sC", [(G, "1", 1)], False), ("sO", [(G, "any", 2), (G, "1", 1)], False),
                                ("bA", [(G, "any", 1)], True), ("bB", [(G, "2", 2)], True)],
-                   loads=[("lA", [(G, "any", 1)], 2)], ntasks=nt, profiles=["p1", "p2"], depth=(5, 6)),
+                   loads=[("lA", [(G, "any", 1)], 2)], ntasks=nt, profiles=["p1", "p2"], depth=(5, 7)),
             Config("W.mixed_any_g1", "worker", [[(G, "any", 1), (G, "1", 1)]],
                    strategies=[("sA", [(G, "any", 1)], False), ("sC", [(G, "1", 1)], False), ("sD", [(G, "2", 1)], False), ("bA", [(G, "1", 1)], True)],
                    loads=[("lA", [(G, "2", 1)], 2)], ntasks=nt, profiles=["p1"], depth=(5, 6)),
